@@ -546,3 +546,23 @@ MANIFEST = {
                    "Nat for Python ints on admissible parameters; float trigonometry not modelled. Open finding: unit_triangle(nu<nv)."),
     "technique": "Lean 4 theorems over source-translated terms (decide on tables, induction/omega on loop nests) + translation validation + oracle",
 }
+
+
+def search_on_break(rng, broken, mismatches):
+    """A proof obligation, a translation site or the correspondence broke: widen the failing-input search far beyond the
+    tier's box — every integer parameter of every parametric generator is swept up to 400 (others kept small)."""
+    mins = {"unit_grid": (2, 2), "unit_triangle": (2, 2), "torus": (3, 3), "sphere_uv": (1, 3), "cylinder": (3,),
+            "ring": (3, 1), "flat_ring": (3, 1)}
+    nb = {"unit_grid": 2, "unit_triangle": 1, "torus": 1, "sphere_uv": 0, "cylinder": 1, "ring": 1, "flat_ring": 0}
+    out = []
+    for g, lo in mins.items():
+        for k in range(len(lo)):
+            hi = 400 if not (g in ("ring", "flat_ring") and k == 1) else 6
+            if g in ("unit_grid", "unit_triangle"): hi = 48      # quadratic size
+            for n in range(lo[k], hi + 1):
+                ints = [max(l, 3) for l in lo]
+                ints[k] = n
+                if g == "unit_triangle" and ints[0] < ints[1]: ints[0] = ints[1]
+                bools = [rng.random() < 0.5 for _ in range(nb[g])]
+                out.append({"gen": g, "ints": ints, "bools": bools, "geo": _geo(rng)})
+    return out
